@@ -154,8 +154,8 @@ def build_array(spec, form=0):
         a = DimArray(vals, axes=[l for l in labs], dims=list(dims))
     elif form == 2:
         a = DimArray(vals, axes=[(d, l) for l, d in zip(labs, dims)])
-    elif form == 3:
-        a = DimArray(vals, axes=dict(zip(dims, labs)), dims=list(dims))
+    elif form == 3:  # dict + dims; the insertion order of the dict is deliberately not the order of dims
+        a = DimArray(vals, axes=dict(reversed(list(zip(dims, labs)))), dims=list(dims))
     elif form == 4:
         a = DimArray(vals, labels=[l for l in labs], dims=tuple(dims))
     elif form == 5:  # values as nested lists, the form of the class docstring
@@ -163,6 +163,17 @@ def build_array(spec, form=0):
             a = DimArray(vals, axes=[(d, l) for l, d in zip(labs, dims)])
         else:
             a = DimArray(spec["values"], axes=[l.tolist() for l in labs], dims=list(dims), dtype=NP_DTYPE[spec["dtype"]])
+    elif form == 6:  # nested dicts {label0: {label1: value}} with dims (rank 1-2, numeric values)
+        if vals.ndim not in (1, 2) or 0 in vals.shape or spec["dtype"] not in ("f8", "i8"):
+            a = DimArray(vals, axes=[(d, l) for l, d in zip(labs, dims)])
+        else:
+            l0 = labs[0].tolist()
+            if vals.ndim == 1:
+                nested = {k: vals[i].item() for i, k in enumerate(l0)}
+            else:
+                l1 = labs[1].tolist()
+                nested = {k: {k1: vals[i, j].item() for j, k1 in enumerate(l1)} for i, k in enumerate(l0)}
+            a = DimArray(nested, dims=list(dims))
     else:
         raise ValueError(form)
     a.attrs.update(attrs)
